@@ -6,16 +6,16 @@ PID = "C01"
 PROP = "C01"
 
 
-def sym(c, strat, n, mode, b, feats=1):
-    pl.sym_query(c, PROP, strat, n, mode, b, feats)
+def sym(c, strat, n, mode, b, feats=1, enc="float"):
+    pl.sym_query(c, PROP, strat, n, mode, b, feats, enc)
 
 
-def replay(inputs, label, strat, n, mode, b, feats=1):
-    return pl.replay_query(inputs, label, PROP, strat, n, mode, b, feats)
+def replay(inputs, label, strat, n, mode, b, feats=1, enc="float"):
+    return pl.replay_query(inputs, label, PROP, strat, n, mode, b, feats, enc)
 
 
-def validate(inputs, strat, n, mode, b, feats=1):
-    return pl.validate_query(inputs, PROP, strat, n, mode, b, feats)
+def validate(inputs, strat, n, mode, b, feats=1, enc="float"):
+    return pl.validate_query(inputs, PROP, strat, n, mode, b, feats, enc)
 
 
 def _cfg_for(name):
@@ -42,6 +42,13 @@ def _cfg_for(name):
         if name in ("RandomSampling", "UncertaintySampling[margin_sampling]", "GreedySamplingX", "QueryByCommittee[KL_divergence]"):
             # two features: feature-row candidates are then a matrix whose size differs from its length
             out.append(dict(strat=name, n=3, mode="rows", b=4, feats=2))
+        if name in ("RandomSampling", "CoreSet", "GreedySamplingX", "TypiClust"):
+            # integer labels with the sentinel -1 (strategies that need no model): the sentinel handed to the strategy
+            # must reach every helper that decides what is labeled
+            for mode in ("none", "idx", "rows"):
+                if mode == "rows" and not a.supports_rows:
+                    continue
+                out.append(dict(strat=name, n=3, mode=mode, b=2, enc="int"))
         return out
     return cfg
 
